@@ -30,3 +30,104 @@ pub fn spec_deinterleave(h: u64) -> (u32, u32) {
 pub fn spec_n_hash(depth: u8) -> u64 {
   12u64 << (2 * depth as u32)
 }
+
+/// De-interleave only the 2*d low bits (d iterations): (i, j) of the in-base-cell part of a hash.
+pub fn spec_deinterleave_d(h: u64, d: u8) -> (u32, u32) {
+  let mut i = 0u32;
+  let mut j = 0u32;
+  let mut k = 0u32;
+  while k < d as u32 {
+    i |= (((h >> (2 * k)) & 1) as u32) << k;
+    j |= (((h >> (2 * k + 1)) & 1) as u32) << k;
+    k += 1;
+  }
+  (i, j)
+}
+
+/// (base cell, i, j) of a nested hash, by the definition of the nested scheme.
+pub fn spec_decode(d: u8, h: u64) -> (u8, u32, u32) {
+  let b = (h >> (2 * d as u32)) as u8;
+  let (i, j) = spec_deinterleave_d(h, d);
+  (b, i, j)
+}
+
+pub fn spec_encode(d: u8, b: u8, i: u32, j: u32) -> u64 {
+  let mut h = (b as u64) << (2 * d as u32);
+  let mut k = 0u32;
+  while k < d as u32 {
+    h |= (((i >> k) & 1) as u64) << (2 * k);
+    h |= (((j >> k) & 1) as u64) << (2 * k + 1);
+    k += 1;
+  }
+  h
+}
+
+// ------------------------------------------------------------------------------------------------------------
+// Plane integer geometry (DESIGN.md 3.4). Unit = 1/nside of the HEALPix projection plane, so that every cell
+// centre and vertex has integer coordinates. The 12 base-cell centres are written out as a table
+// (Calabretta & Roukema 2007, fig. 1 / Gorski 2005 fig. 4), not computed by the crate.
+// ------------------------------------------------------------------------------------------------------------
+
+pub const BASE_CX: [i64; 12] = [1, 3, 5, 7, 0, 2, 4, 6, 1, 3, 5, 7];
+pub const BASE_CY: [i64; 12] = [1, 1, 1, 1, 0, 0, 0, 0, -1, -1, -1, -1];
+
+/// Centre of cell (b, i, j) of depth d, x reduced to [0, 8 nside).
+pub fn plane_center(d: u8, b: u8, i: u32, j: u32) -> (i64, i64) {
+  let n = 1i64 << d;
+  let x = i as i64 - j as i64 + BASE_CX[b as usize] * n;
+  let y = i as i64 + j as i64 - (n - 1) + BASE_CY[b as usize] * n;
+  (x & (8 * n - 1), y)
+}
+
+/// Canonical representative of a grid point for the identifications of the sphere:
+/// x modulo 8 nside; in a polar cap the boundary u = t of facet q is the boundary u = -t of facet q+1; t = 0 is the pole.
+pub fn plane_canon(d: u8, x: i64, y: i64) -> (i64, i64) {
+  let n = 1i64 << d;
+  let x = x & (8 * n - 1);
+  let ay = if y < 0 { -y } else { y };
+  if ay > n {
+    let t = 2 * n - ay;
+    if t == 0 { return (0, y); }
+    let q = x >> (d as u32 + 1);
+    let u = x - (2 * q + 1) * n;
+    if u == t { return (((2 * q + 3) * n - t) & (8 * n - 1), y); }
+  }
+  (x, y)
+}
+
+/// Canonical vertices [S, E, N, W] of the cell of centre (cx, cy).
+pub fn plane_vertices(d: u8, cx: i64, cy: i64) -> [(i64, i64); 4] {
+  [plane_canon(d, cx, cy - 1), plane_canon(d, cx + 1, cy), plane_canon(d, cx, cy + 1), plane_canon(d, cx - 1, cy)]
+}
+
+pub fn plane_cell_vertices(d: u8, h: u64) -> [(i64, i64); 4] {
+  let (b, i, j) = spec_decode(d, h);
+  let (cx, cy) = plane_center(d, b, i, j);
+  plane_vertices(d, cx, cy)
+}
+
+/// Number of canonical vertices shared by two vertex sets (each set has 4 distinct points).
+pub fn plane_n_shared(va: &[(i64, i64); 4], vc: &[(i64, i64); 4]) -> u32 {
+  let mut n = 0u32;
+  let mut k = 0;
+  while k < 4 {
+    let mut l = 0;
+    while l < 4 {
+      if va[k].0 == vc[l].0 && va[k].1 == vc[l].1 { n += 1; }
+      l += 1;
+    }
+    k += 1;
+  }
+  n
+}
+
+pub fn plane_has_vertex(vc: &[(i64, i64); 4], p: (i64, i64)) -> bool {
+  (vc[0].0 == p.0 && vc[0].1 == p.1) || (vc[1].0 == p.0 && vc[1].1 == p.1)
+    || (vc[2].0 == p.0 && vc[2].1 == p.1) || (vc[3].0 == p.0 && vc[3].1 == p.1)
+}
+
+/// The 8 points of the sphere where only three cells meet: (2 q nside, +-nside).
+pub fn plane_is_three_cell_point(d: u8, p: (i64, i64)) -> bool {
+  let n = 1i64 << d;
+  (p.1 == n || p.1 == -n) && (p.0 & (2 * n - 1)) == 0
+}
